@@ -20,10 +20,32 @@ class _CmathShim:
         return _cmath.exp(x)
 
 
+class _MathShim:
+    """math on symbolic angles: cos/sin of an Angle are exact trig polynomials (assumed contract of the dependency)"""
+
+    def __getattr__(self, name):
+        import math
+
+        return getattr(math, name)
+
+    @staticmethod
+    def cos(x):
+        import math
+
+        return x.cos() if isinstance(x, Angle) else math.cos(x)
+
+    @staticmethod
+    def sin(x):
+        import math
+
+        return x.sin() if isinstance(x, Angle) else math.sin(x)
+
+
 def _install_shims():
     import cirq.ops.fsim_gate as fg
 
     fg.cmath = _CmathShim()
+    fg.math = _MathShim()
 
 
 def _report(key, obls):
@@ -104,9 +126,9 @@ def _replay_kernel(ob, seed):
         kw = dict(zip(names, vals))
         try:
             gate = sp["make"](**kw)
-            sym_kw = {n: Angle.of(v) for n, v in kw.items()}
-            M = trigpoly.numeric(sp["matrix"](**sym_kw), {})
-            ph = trigpoly.numeric(np.array([[sp["phase"](**sym_kw)]], dtype=object), {})[0, 0] if sp["phase"] else 1.0
+            sym_kw = {n: Angle.sym(n) for n in kw}
+            M = trigpoly.numeric(sp["matrix"](**sym_kw), kw)
+            ph = trigpoly.numeric(np.array([[sp["phase"](**sym_kw)]], dtype=object), kw)[0, 0] if sp["phase"] else 1.0
         except Exception:
             continue
         t = np.array([complex(rng.gauss(0, 1), rng.gauss(0, 1)) for _ in range(int(np.prod(shape)))]).reshape(shape)
